@@ -403,6 +403,26 @@ def check_special(case):
                 ref2 = np.arccos(np.einsum("...l,l->...", a, w) / (na * np.linalg.norm(w)))
             good2 = (na > 0) & np.isfinite(ref2)
             require(np.allclose(ang2.array[..., 0][good2], ref2[good2], rtol=1e-9, atol=1e-7), "angle-vector-value")
+    # integer-typed fields with components whose squares leave the range of the dtype (Ms = 800000 as int32): lengths
+    # and angles are taken in floating point
+    import discretisedfield as df
+
+    if k > 1:
+        for dt, big in ((np.int32, 70000), (np.int16, 300), (np.int64, 3_100_000_000)):
+            ai = (a.real.astype(np.int64) * (big // 9)).astype(dt)
+            fi = df.Field(mesh, nvdim=k, value=ai, dtype=dt)
+            w = tuple(range(1, k + 1))
+            with np.errstate(all="ignore"):
+                ang = fi.angle(w)
+                af = ai.astype(float)
+                na = np.sqrt(np.sum(af**2, axis=-1))
+                ref = np.arccos(np.einsum("...l,l->...", af, np.array(w, float)) / (na * np.linalg.norm(w)))
+            good = (na > 0) & np.isfinite(ref)
+            if good.any() and not np.allclose(ang.array[..., 0][good], ref[good], rtol=1e-9, atol=1e-7, equal_nan=False):
+                raise Violation("angle-large-integers", f"{np.dtype(dt).name} field with components up to {big}: angle "
+                                                        f"{ang.array[..., 0][good][0]!r} vs {ref[good][0]!r}")
+            if not np.allclose(fi.norm.array[..., 0], na, rtol=1e-12):
+                raise Violation("norm-large-integers", f"{np.dtype(dt).name} field: norm is not the Euclidean length")
     for name, f in fields.items():
         if snapshot(f) != snaps[name]:
             raise Violation("operand-modified", f"operand {name} (values, validity, labels or mesh) changed")
